@@ -1,4 +1,5 @@
 import GomlVerif.Model.Syntax
+import GomlVerif.Model.Derive
 import GomlVerif.Model.FloatFmt
 /-
 Source-level meaning of the unified expression language: a definitional big-step
@@ -132,22 +133,22 @@ def unop (op : UnOp) (a : Val) : Except Fail Val :=
   | .not, .bool b => .ok (.bool !b)
   | _, _ => .error (.stuck "unary operator applied to a value it is not defined on")
 
-/-- Go's `strconv.Quote` as used by `json_escape_string` (`%q`) -/
-def goQuote (s : String) : String :=
-  let hex (n : Nat) : Char := if n < 10 then Char.ofNat (48 + n) else Char.ofNat (87 + n)
-  "\"" ++ s.foldl (fun acc c =>
-    if c == '"' then acc ++ "\\\""
-    else if c == '\\' then acc ++ "\\\\"
-    else if c == '\n' then acc ++ "\\n"
-    else if c == '\t' then acc ++ "\\t"
-    else if c == '\r' then acc ++ "\\r"
-    else if c.toNat == 7 then acc ++ "\\a"
-    else if c.toNat == 8 then acc ++ "\\b"
-    else if c.toNat == 12 then acc ++ "\\f"
-    else if c.toNat == 11 then acc ++ "\\v"
-    else if c.toNat < 32 || c.toNat == 127 then
-      acc ++ "\\x" ++ String.singleton (hex (c.toNat / 16)) ++ String.singleton (hex (c.toNat % 16))
-    else acc.push c) "" ++ "\""
+/-- `unicode.IsPrint` on non-ASCII runes, as far as it does not depend on the Unicode version:
+    controls, format characters, separators, private use and noncharacters are not printable;
+    unassigned code points are not modelled (taken as printable) -/
+def goIsPrint (c : Char) : Bool :=
+  let n := c.toNat
+  !( (0x80 ≤ n && n ≤ 0xA0) || n == 0xAD || n == 0x61C || n == 0x180E || n == 0x1680
+   || (0x2000 ≤ n && n ≤ 0x200F) || (0x2028 ≤ n && n ≤ 0x202F) || (0x205F ≤ n && n ≤ 0x206F)
+   || n == 0x3000 || n == 0xFEFF || (0xFFF0 ≤ n && n ≤ 0xFFFB) || n == 0xFFFE || n == 0xFFFF
+   || (0xE000 ≤ n && n ≤ 0xF8FF) || (0xFDD0 ≤ n && n ≤ 0xFDEF)
+   || (0xE0000 ≤ n && n ≤ 0xE0FFF) || 0xF0000 ≤ n || n % 0x10000 ≥ 0xFFFE )
+
+/-- Go's `strconv.Quote` (`%q`): `Derive.goQuote` -/
+def goQuote (s : String) : String := String.ofList (Derive.goQuote goIsPrint s.toList)
+
+/-- the runtime's `json_escape_string`: `Derive.jsonQuote` -/
+def jsonEscape (s : String) : String := String.ofList (Derive.jsonQuote s.toList)
 
 /-- "a readable decimal form": the shortest decimal that reads back as the same float, laid out as
     Go's `%g` does (`Model/FloatFmt.lean`); floats are validated, not proved -/
@@ -163,7 +164,7 @@ def builtin (name : String) (args : List Val) (w : World) : Option (Res Val) :=
   | "unit_to_string", [.unit] => some (.ok (.str "()") w)
   | "bool_to_string", [.bool b] => some (.ok (.str (if b then "true" else "false")) w)
   | "bool_to_json", [.bool b] => some (.ok (.str (if b then "true" else "false")) w)
-  | "json_escape_string", [.str s] => some (.ok (.str (goQuote s)) w)
+  | "json_escape_string", [.str s] => some (.ok (.str (jsonEscape s)) w)
   | "string_len", [.str s] => some (.ok (.int 32 true (wrap 32 true s.utf8ByteSize)) w)
   | "string_get", [.str s, .int _ _ i] =>
     if i < 0 then some (.fail (.panic "index out of range") w)
